@@ -53,6 +53,9 @@ func (w *World) PanicCensus(roots []*ssa.Function) map[string]*panicSite {
 				case ssa.CallInstruction:
 					n := CalleeName(x.Common())
 					ln := lastName(n)
+					if why, ok := panickyDep(n); ok {
+						add("may-panic:"+n+" ("+why+")", w.posOr(x.Pos(), fn))
+					}
 					if strings.HasPrefix(ln, "Must") && ln != "Must" {
 						// a Must* function of the repo itself is scanned as a function (its own panic is the site);
 						// calls to it need no second entry. Dependency Must* calls are sites.
@@ -464,4 +467,27 @@ func (r *Report) Swallowed(key string, roots []*ssa.Function, table []swallowAll
 			r.Bad(key+"|"+k, d, s.Pos, fmt.Sprintf("%s tests the error of %s and carries on: not in the accepted table", s.Fn, s.Callee), s.Path...)
 		}
 	}
+}
+
+// panickyDep: dependency functions documented to panic on a value-dependent condition (not on programmer error
+// only). A call of one in begin/end-block code is a census site like an explicit panic.
+func panickyDep(name string) (string, bool) {
+	const m, t = "cosmossdk.io/math.", "github.com/cosmos/cosmos-sdk/types."
+	table := map[string]string{
+		m + "Int.Int64": "panics if the value does not fit int64", m + "Int.Uint64": "panics if the value does not fit uint64",
+		m + "Int.Quo": "panics on division by zero", m + "Int.QuoRaw": "panics on division by zero", m + "Int.Mod": "panics on division by zero", m + "Int.ModRaw": "panics on division by zero",
+		m + "Uint.Sub": "panics on underflow", m + "Uint.Quo": "panics on division by zero", m + "Uint.Uint64": "panics if the value does not fit uint64",
+		m + "LegacyDec.Quo": "panics on division by zero", m + "LegacyDec.QuoTruncate": "panics on division by zero", m + "LegacyDec.QuoRoundUp": "panics on division by zero",
+		m + "LegacyDec.QuoInt": "panics on division by zero", m + "LegacyDec.QuoInt64": "panics on division by zero",
+		m + "LegacyDec.RoundInt64": "panics if the value does not fit int64", m + "LegacyDec.TruncateInt64": "panics if the value does not fit int64",
+		m + "LegacyNewDecWithPrec": "panics if prec > 18", m + "LegacyNewDecFromIntWithPrec": "panics if prec > 18",
+		t + "Coins.Sub": "panics if any amount would go negative", t + "Coins.MulInt": "panics if the multiplier is zero", t + "Coins.QuoInt": "panics on division by zero",
+		t + "DecCoins.Sub": "panics if any amount would go negative", t + "DecCoins.QuoDec": "panics on division by zero", t + "DecCoins.QuoDecTruncate": "panics on division by zero",
+		t + "Coin.Sub": "panics if the amount would go negative", t + "DecCoin.Sub": "panics if the amount would go negative",
+		t + "NewCoin": "panics on a negative amount or invalid denom", t + "NewCoins": "panics on invalid, duplicate or negative coins",
+		t + "NewDecCoin": "panics on a negative amount or invalid denom", t + "NewDecCoinFromDec": "panics on a negative amount or invalid denom",
+		t + "NewInt64Coin": "panics on a negative amount or invalid denom",
+	}
+	why, ok := table[name]
+	return why, ok
 }
